@@ -87,7 +87,7 @@ Definition help_pick (a : application) (toks : list str) : res (bcmd * path * op
   do w <- walk (named_of (ap_cmds a)) None names;
   match w with
   | Some (b, pth) =>
-    do d <- pick_default (defaults_of (b_subs b)) toks None;
+    do d <- help_pick_default (defaults_of (b_subs b)) toks None;
     match d with
     | Some (dc, _) =>
       Ok (dc, pth ++ [b_name dc],
@@ -101,7 +101,7 @@ Definition help_pick (a : application) (toks : list str) : res (bcmd * path * op
     match names with
     | _ :: _ => Err CannotResolve
     | [] =>
-      do d <- pick_default (defaults_of (ap_cmds a)) toks None;
+      do d <- help_pick_default (defaults_of (ap_cmds a)) toks None;
       match d with
       | Some (dc, _) => Ok (dc, [b_name dc], option_map (fun i => [i]) (last_named b_default (b_name dc) (ap_cmds a)))
       | None => Err CannotResolve
